@@ -158,7 +158,8 @@ func (t Time) Less(input Any) (Boolean, error) {
 // Add returns the result of t with the time-valued quantity added to it.
 // Returns an error if the Quantity does not represent a valid duration.
 func (t Time) Add(input Quantity) (Time, error) {
-	duration, err := input.timeDuration()
+	// whole days drop out: a Time wraps around midnight
+	_, duration, err := input.timeDuration()
 	if err != nil {
 		return Time{}, err
 	}
@@ -170,7 +171,8 @@ func (t Time) Add(input Quantity) (Time, error) {
 // Sub returns the result of the time-valued quantity subtracted from t.
 // Returns an error if the Quantity does not represent a valid duration.
 func (t Time) Sub(input Quantity) (Time, error) {
-	duration, err := input.timeDuration()
+	// whole days drop out: a Time wraps around midnight
+	_, duration, err := input.timeDuration()
 	if err != nil {
 		return Time{}, err
 	}
